@@ -280,7 +280,7 @@ func checkC08(r *Run) {
 	r.Rule("C08.R4.order", "the encoder's sort order is total: sorter.Less is the strict lexicographic order on (keys, alignments, rawIndices), so series of one channel with equal alignment keep their order under the unstable sort.Sort", 1)
 	r.Rule("C08.R7.publish", "Codec.update puts the new channel-set state into the updates channel before it raises the updateAvailable flag: processUpdates clears the flag and drains the channel, so a flag raised first can be consumed while the channel is still empty and the state is stranded (the encoder stays on the stale key set)", 1)
 	r.Rule("C08.R6.states", "the codec's backlog of channel-set states only grows: Codec.mu.states is allocated by the constructor and extended by processUpdates, and no entry is deleted or replaced (a frame encoded k updates ago must still decode)", 2)
-	r.Rule("C08.R5.fullread", "binary.Reader takes bytes from its underlying io.Reader only through io.ReadFull: the decoder discards the byte counts and assumes every read filled its buffer, and stream transports deliver messages in chunks", 4)
+	r.Rule("C08.R5.fullread", "binary.Reader takes bytes from its underlying io.Reader only through io.ReadFull: the decoder discards the byte counts and assumes every read filled its buffer, and stream transports deliver messages in chunks", 1)
 	r.Rule("C08.R8.update", "the WebSocket framer codec decides from the decoded message alone whether a request renegotiates the channel set: a request decoder returns without Codec.Update only across a test of the message (its type, its command, an empty key list), never of codec state - the peer counts one state per request it sent, and a request the server skips leaves the two sequence numbers apart for good", 3)
 	r.Rule("C08.R3.nopanic", "no builtin panic / lo.Must is reachable through static calls from the decode entry points", 4)
 
@@ -909,8 +909,8 @@ func checkFullReads(r *Run, p *Prog) {
 			return true
 		})
 	}
-	if n < 4 {
-		r.Undecide("C08.R5: only %d reads of binary.Reader's underlying reader found (expected 4)", n)
+	if n < 1 {
+		r.Undecide("C08.R5: only %d reads of binary.Reader's underlying reader found (expected >= 1)", n)
 	}
 }
 
